@@ -628,6 +628,45 @@ pub fn apply(es: &mut EditState, name: &str, a: &[i64]) -> OpRes {
     }
 }
 
+/// Input class of one call, observed just before it is made: which kind of layer it targets and whether its
+/// position / slot arguments are inside the current ranges. Only used to NAME findings (keys), never to judge.
+///   A = target layer has a locked alpha channel, L = is locked, H = is hidden, oob = a position outside the target layer,
+///   cp = caret font page != 0, occ = destination font slot already occupied
+fn classify(es: &EditState, name: &str, a: &[i64]) -> String {
+    let g = |i: usize| a.get(i).copied().unwrap_or(0);
+    let b = es.get_buffer();
+    let n = b.layers.len();
+    let current_layer_ops = ["set_char", "set_char_mirror", "swap_char", "center_line", "justify_line_left", "justify_line_right", "delete_row", "insert_row",
+        "insert_column", "delete_column", "erase_row", "erase_row_to_start", "erase_row_to_end", "erase_column", "erase_column_to_start", "erase_column_to_end",
+        "anchor_layer", "move_layer", "stamp_layer_down", "rotate_layer", "make_layer_transparent", "justify_left", "center", "justify_right", "flip_x", "flip_y",
+        "erase_selection", "scroll_area_up", "scroll_area_down", "scroll_area_left", "scroll_area_right"];
+    let indexed_ops = ["remove_layer", "raise_layer", "lower_layer", "duplicate_layer", "clear_layer", "merge_layer_down", "toggle_layer_visibility", "set_layer_size", "update_layer_properties"];
+    let target = if n == 0 { None } else if current_layer_ops.contains(&name) { Some((g(0).max(0) as usize).min(n - 1)) } else if indexed_ops.contains(&name) && (g(0) as usize) < n && g(0) >= 0 { Some(g(0) as usize) } else { None };
+    let mut cls: Vec<&str> = vec![];
+    if let Some(t) = target {
+        let l = &b.layers[t];
+        if l.properties.has_alpha_channel && l.properties.is_alpha_channel_locked { cls.push("A"); }
+        if l.properties.is_locked { cls.push("L"); }
+        if !l.properties.is_visible { cls.push("H"); }
+        let inside = |x: i64, y: i64| x >= 0 && y >= 0 && x < l.get_width() as i64 && y < l.get_height() as i64;
+        let oob = match name {
+            "set_char" | "set_char_mirror" => !inside(g(1), g(2)),
+            "swap_char" => !inside(g(1), g(2)) || !inside(g(3), g(4)),
+            "delete_row" | "insert_row" => g(1) < 0 || g(1) >= l.get_height() as i64,
+            "insert_column" | "delete_column" => g(1) < 0 || g(1) >= l.get_width() as i64,
+            _ => false,
+        };
+        if oob { cls.push("oob"); }
+    }
+    match name {
+        "set_font" | "set_ansi_font" | "set_sauce_font" => if es.get_caret().get_font_page() != 0 { cls.push("cp") },
+        "add_ansi_font" => if b.has_font(g(0).max(0) as usize) { cls.push("occ") },
+        "change_font_slot" => if b.has_font(g(1).max(0) as usize) { cls.push("occ") },
+        _ => {}
+    }
+    cls.join(",")
+}
+
 // ------------------------------------------------------------------------------------------------ cases
 #[derive(Clone, Debug)]
 pub enum Step {
@@ -718,6 +757,7 @@ fn run_case(case: &Case, id: usize, w: &mut dyn Watch, st: &mut Stats) {
         }
         match step {
             Step::Op(name, args) => {
+                let cls = guard(|| classify(&es, &name, &args)).unwrap_or_default();
                 let res = guard(|| apply(&mut es, &name, &args));
                 let (r, extra) = match res {
                     Ok(OpRes::Ok) => ("ok", json!({})),
@@ -734,6 +774,7 @@ fn run_case(case: &Case, id: usize, w: &mut dyn Watch, st: &mut Stats) {
                 if r == "ok" || r == "skip" {
                     let Some((ul, cr)) = obs(&es) else { break 'steps };
                     let mut ev = json!({"ev":"op","op":name,"args":args,"r":r,"ul":ul,"cr":cr});
+                    if !cls.is_empty() { ev["cls"] = json!(cls); }
                     let snap_ok = guard(|| w.event(ev.take(), &es));
                     if snap_ok.is_err() { break 'steps; }
                 } else {
@@ -882,6 +923,28 @@ fn gen_cases(seed: u64, thorough: bool, gen_path: &str) -> Vec<Case> {
             cases.push(Case { seed: sd, src: "single", steps });
         }
     }
+    // (2a') context pairs: an operation that changes what later undo records depend on (layer size, layer flags, selection,
+    //       caret font page, visibility, offset, stored rows/columns) followed by every table entry, and the reverse order for
+    //       set_layer_size; all seed documents in thorough, two (rotating with the seed) in quick
+    let ctx = ["set_layer_size", "update_layer_properties", "set_selection", "switch_to_font_page", "toggle_layer_visibility", "move_layer", "delete_column", "delete_row"];
+    let mut n = seed as usize;
+    for (ci, cj) in t.flat.iter().copied().filter(|(i, _)| ctx.contains(&t.ops[*i].0)) {
+        let c = Step::Op(t.ops[ci].0.to_string(), t.ops[ci].1[cj].clone());
+        for k in 0..nflat {
+            n += 1;
+            let seeds: Vec<usize> = if thorough { (0..N_SEEDS).collect() } else { vec![n % N_SEEDS, (n + 3) % N_SEEDS] };
+            for sd in seeds {
+                let mut steps = vec![c.clone(), t.step(k)];
+                steps.extend(shape_steps("ZWZW", || unreachable!()));
+                cases.push(Case { seed: sd, src: "ctx-pair", steps });
+                if t.ops[ci].0 == "set_layer_size" {
+                    let mut steps = vec![t.step(k), c.clone()];
+                    steps.extend(shape_steps("ZWZW", || unreachable!()));
+                    cases.push(Case { seed: sd, src: "ctx-pair", steps });
+                }
+            }
+        }
+    }
     // (2b) pairs: exhaustive over all table entries x all seeds (thorough) / seeded sample (quick)
     let mut r = rng(seed, 200);
     if thorough {
@@ -936,6 +999,182 @@ fn gen_cases(seed: u64, thorough: bool, gen_path: &str) -> Vec<Case> {
     }
     eprintln!("c08: {} cases ({} from TLC shapes, {} table entries of {} operations)", cases.len(), n_shapes, nflat, nops);
     cases
+}
+
+// ------------------------------------------------------------------------------------------------ naming of findings
+// The verdict comes from Trace_Undo.tla alone.  To give a violation a KEY that names its cause rather than the
+// incidental history around it, the driver shrinks the violating history to a 1-minimal one that still violates the
+// same predicate (delta debugging, in-process) and names the operation whose undo/redo step first failed to restore
+// the (strict) snapshot in that minimal history.  `Judge` mirrors the property layer of Trace_Undo on digests.
+type Dg = (u64, u64);
+
+fn digest_pair(es: &EditState) -> Dg {
+    let mut h = HashSink::new();
+    snap(es, &mut h);
+    (h.w.finish(), h.x.finish())
+}
+
+struct Ent {
+    b: Option<Dg>,
+    a: Option<Dg>,
+    tag: String,
+}
+
+#[derive(Clone, Debug, PartialEq)]
+struct Verdict {
+    pred: String,
+    op: String,
+    site: String,
+}
+
+struct Judge {
+    past: Vec<Ent>,
+    future: Vec<Ent>,
+    open: Vec<usize>,
+    cur: Dg,
+    taint: Option<String>,
+    verdict: Option<Verdict>,
+    done: bool,
+}
+
+impl Judge {
+    fn new() -> Self {
+        Judge { past: vec![], future: vec![], open: vec![], cur: (0, 0), taint: None, verdict: None, done: false }
+    }
+    fn fail(&mut self, pred: &str, op: String, site: &str) {
+        self.verdict = Some(Verdict { pred: pred.to_string(), op, site: site.to_string() });
+        self.done = true;
+    }
+}
+
+impl Watch for Judge {
+    fn event(&mut self, ev: Value, es: &EditState) {
+        if self.done {
+            return;
+        }
+        let kind = ev["ev"].as_str().unwrap_or("").to_string();
+        let r = ev["r"].as_str().unwrap_or("ok").to_string();
+        if r == "err" || r == "panic" {
+            if kind == "undo" || kind == "redo" {
+                let tag = if kind == "undo" { self.past.last() } else { self.future.last() }.map(|e| e.tag.clone()).unwrap_or_else(|| "none".into());
+                let name = if kind == "undo" { "Undo" } else { "Redo" };
+                let op = self.taint.clone().unwrap_or(tag);
+                self.fail(&format!("{name}{}", if r == "panic" { "Panics" } else { "Fails" }), op, ev["site"].as_str().unwrap_or(""));
+            }
+            self.done = true;
+            return;
+        }
+        let now = digest_pair(es);
+        let ul = ev["ul"].as_u64().unwrap_or(0) as usize;
+        let cr = ev["cr"].as_i64().unwrap_or(0);
+        match kind.as_str() {
+            "reset" => {}
+            "op" if r == "ok" => {
+                let cls = ev["cls"].as_str().unwrap_or("");
+                let tag = if cls.is_empty() { ev["op"].as_str().unwrap_or("").to_string() } else { format!("{}#{}", ev["op"].as_str().unwrap_or(""), cls) };
+                let k = ul as i64 - self.past.len() as i64;
+                if k == 0 {
+                    if now.0 != self.cur.0 { self.fail("EditLeavesStep", tag, ""); return; }
+                    if cr == 0 { self.future.clear(); }
+                } else if k > 0 {
+                    if cr == 1 { self.fail("EditClearsRedo", tag, ""); return; }
+                    for i in 0..k {
+                        self.past.push(Ent { b: if i == 0 { Some(self.cur) } else { None }, a: if i == k - 1 { Some(now) } else { None }, tag: tag.clone() });
+                    }
+                    self.future.clear();
+                }
+            }
+            "undo" | "redo" => {
+                let is_undo = kind == "undo";
+                let e = if is_undo { self.past.pop() } else { self.future.pop() };
+                if let Some(e) = e {
+                    let want = if is_undo { e.b } else { e.a };
+                    if let Some(wd) = want {
+                        if wd.0 != now.0 {
+                            let op = self.taint.clone().unwrap_or(e.tag.clone());
+                            self.fail(if is_undo { "UndoRestores" } else { "RedoRestores" }, op, "");
+                            return;
+                        }
+                        if wd.1 != now.1 && self.taint.is_none() { self.taint = Some(e.tag.clone()); }
+                    }
+                    if is_undo { self.future.push(e) } else { self.past.push(e) }
+                }
+            }
+            "begin" => { self.open.push(self.past.len()); self.future.clear(); }
+            "end" => {
+                if let Some(base) = self.open.pop() {
+                    if self.past.len() > base {
+                        let inner: Vec<Ent> = self.past.drain(base..).collect();
+                        let tag = if inner.len() == 1 { inner[0].tag.clone() } else { format!("group({})", inner.iter().map(|e| e.tag.as_str()).collect::<Vec<_>>().join("+")) };
+                        self.past.push(Ent { b: inner[0].b, a: inner[inner.len() - 1].a, tag });
+                    } else if ul > self.past.len() {
+                        self.past.push(Ent { b: Some(now), a: Some(now), tag: "group()".into() });
+                    }
+                }
+            }
+            _ => {}
+        }
+        while self.past.len() > ul { self.past.pop(); }
+        while self.past.len() < ul { self.past.push(Ent { b: None, a: None, tag: "?".into() }); }
+        self.cur = now;
+    }
+}
+
+fn judge(case: &Case) -> Option<Verdict> {
+    let mut j = Judge::new();
+    let mut st = Stats::default();
+    run_case(case, 0, &mut j, &mut st);
+    j.verdict
+}
+
+/// 1-minimal sub-history with the same failing predicate (and panic site).
+fn minimize(case: &Case) -> (Case, Option<Verdict>) {
+    let Some(v0) = judge(case) else { return (case.clone(), None) };
+    let same = |c: &Case| judge(c).map(|v| v.pred == v0.pred && v.site == v0.site).unwrap_or(false);
+    let mut cur = case.clone();
+    let mut chunk = (cur.steps.len() / 2).max(1);
+    loop {
+        let mut i = 0;
+        let mut removed = false;
+        while i < cur.steps.len() {
+            let mut t = cur.clone();
+            let end = (i + chunk).min(t.steps.len());
+            t.steps.drain(i..end);
+            if same(&t) { cur = t; removed = true; } else { i += chunk; }
+        }
+        if chunk == 1 && !removed { break; }
+        if chunk > 1 { chunk = (chunk / 2).max(1); }
+    }
+    let v = judge(&cur);
+    (cur, v)
+}
+
+fn step_json(s: &Step) -> Value {
+    match s {
+        Step::Op(n, a) => json!({"ev":"op","op":n,"args":a}),
+        Step::Undo => json!({"ev":"undo"}),
+        Step::Redo => json!({"ev":"redo"}),
+        Step::Begin => json!({"ev":"begin"}),
+        Step::EndDrop => json!({"ev":"end","kind":"drop"}),
+        Step::EndExplicit => json!({"ev":"end","kind":"end"}),
+        Step::UndoAll => json!({"ev":"undo_all"}),
+        Step::RedoAll => json!({"ev":"redo_all"}),
+    }
+}
+
+fn keys(inp: &str, outp: &str) {
+    let text = std::fs::read_to_string(inp).expect("cases file");
+    let v: Value = serde_json::from_str(&text).expect("cases json");
+    let mut res = vec![];
+    for c in v.as_array().cloned().unwrap_or_default() {
+        let case = parse_case(&c);
+        let (min, verdict) = minimize(&case);
+        match verdict {
+            Some(vd) => res.push(json!({"pred": vd.pred, "op": vd.op, "site": vd.site, "seed": min.seed, "min": min.steps.iter().map(step_json).collect::<Vec<_>>()})),
+            None => res.push(json!({"pred": "", "op": "", "site": "", "seed": case.seed, "min": []})),
+        }
+    }
+    std::fs::write(outp, serde_json::to_string(&res).unwrap()).expect("write keys");
 }
 
 // ------------------------------------------------------------------------------------------------ explain
@@ -1030,6 +1269,8 @@ fn parse_case(v: &Value) -> Case {
             "redo" => steps.push(Step::Redo),
             "begin" => steps.push(Step::Begin),
             "end" => steps.push(if s["kind"].as_str() == Some("end") { Step::EndExplicit } else { Step::EndDrop }),
+            "undo_all" => steps.push(Step::UndoAll),
+            "redo_all" => steps.push(Step::RedoAll),
             _ => {}
         }
     }
@@ -1052,6 +1293,10 @@ pub fn c08(a: &Args) {
     crate::util::install_panic_hook();
     if a.has("explain") {
         explain(&a.str("explain", ""));
+        return;
+    }
+    if a.has("keys") {
+        keys(&a.str("keys", ""), &a.str("out", "work/C08/keys.json"));
         return;
     }
     let out = a.str("out", "work/C08/trace.ndjson");
